@@ -1,6 +1,403 @@
-//! C44 — not implemented yet.
-use mc_core::Ctx;
+//! C44 — consensus time and rounds only move forward.
+//!
+//! Explicit-state breadth-first exploration of the real consensus manager driven by round-change *system
+//! transactions* (validator execution proof, as the node does), from two genesis configurations
+//! (round-count-triggered and duration-triggered epoch change, two validators each).
+//!
+//! Alphabet per state (all combinations): round ∈ {cur−1, cur, cur+1, cur+2, u64::MAX} × proposer timestamp
+//! ∈ {t−1 ms, t, t+1 ms, t+59 999 ms, t+60 000 ms, i64::MAX} × gap-leader list {consistent, inconsistent}
+//! × leader ∈ {0, 1, invalid index}, plus one `Query` transaction that calls `get_current_time` /
+//! `compare_current_time` at both precisions, with every operator, for instants around the clock.
+//!
+//! Reference (written from the statement, state read back from the stored substates after every
+//! transaction): proposer timestamp and minute clock never decrease; the minute clock is the proposer
+//! timestamp rounded down to minutes; inside an epoch the round never decreases and a successful round
+//! change strictly increases it (to the reported round); an epoch change is +1 and resets the round to 0;
+//! a successful round change records the reported timestamp; query answers equal the comparison of the
+//! recorded clock (rounded to the precision) with the instant (rounded to the precision).
+use mc_core::{bfs, BfsStats, Ctx, Level, Machine};
+use mc_ledger::*;
+use radix_engine::system::system_db_reader::SystemDatabaseReader;
+use serde_json::{json, Map};
 
-pub fn run(_ctx: Ctx) -> ! {
-    mc_core::machinery_error("C44: not implemented")
+const MILLIS_IN_MINUTE: i64 = 60_000;
+
+#[derive(Clone, Debug, PartialEq, Eq)]
+pub struct Clock {
+    epoch: u64,
+    round: u64,
+    milli: i64,
+    minute: i32,
+    effective_start: i64,
+    actual_start: i64,
+}
+
+fn read_clock(sim: &Sim) -> Clock {
+    let reader = SystemDatabaseReader::new(sim.substate_db());
+    let node = CONSENSUS_MANAGER.as_node_id();
+    let state = reader
+        .read_typed_object_field::<ConsensusManagerStateFieldPayload>(node, ModuleId::Main, ConsensusManagerField::State.field_index())
+        .unwrap_or_else(|e| mc_core::machinery_error(&format!("consensus manager state unreadable: {e:?}")))
+        .fully_update_and_into_latest_version();
+    let milli = reader
+        .read_typed_object_field::<ConsensusManagerProposerMilliTimestampFieldPayload>(node, ModuleId::Main, ConsensusManagerField::ProposerMilliTimestamp.field_index())
+        .unwrap_or_else(|e| mc_core::machinery_error(&format!("milli timestamp unreadable: {e:?}")))
+        .fully_update_and_into_latest_version()
+        .epoch_milli;
+    let minute = reader
+        .read_typed_object_field::<ConsensusManagerProposerMinuteTimestampFieldPayload>(node, ModuleId::Main, ConsensusManagerField::ProposerMinuteTimestamp.field_index())
+        .unwrap_or_else(|e| mc_core::machinery_error(&format!("minute timestamp unreadable: {e:?}")))
+        .fully_update_and_into_latest_version()
+        .epoch_minute;
+    Clock {
+        epoch: state.epoch.number(),
+        round: state.round.number(),
+        milli,
+        minute,
+        effective_start: state.effective_epoch_start_milli,
+        actual_start: state.actual_epoch_start_milli,
+    }
+}
+
+#[derive(Clone, Debug, PartialEq, Eq)]
+pub enum Op {
+    NextRound { round: u64, ts: i64, gaps: usize, leader: u8, tag: String },
+    Query,
+}
+
+pub struct St {
+    sim: Sim,
+    clock: Clock,
+}
+
+pub struct ClockMachine {
+    root: Snap,
+    epoch0: u64,
+    reduced: bool,
+}
+
+const INVALID_LEADER: u8 = 7;
+
+fn genesis(cond: EpochChangeCondition) -> BabylonSettings {
+    let k1 = Secp256k1PrivateKey::from_u64(1).unwrap().public_key();
+    let k2 = Secp256k1PrivateKey::from_u64(2).unwrap().public_key();
+    BabylonSettings::validators_and_single_staker(
+        vec![(k1, Decimal::one()), (k2, Decimal::one())],
+        ComponentAddress::preallocated_account_from_public_key(&k1),
+        Decimal::zero(),
+        Epoch::of(1),
+        ConsensusManagerConfig::test_default().with_epoch_change_condition(cond),
+    )
+}
+
+impl ClockMachine {
+    fn new(cond: EpochChangeCondition, reduced: bool) -> ClockMachine {
+        let sim = LedgerSimulatorBuilder::new()
+            .with_custom_protocol(|b| b.configure_babylon(|_| genesis(cond)).from_bootstrap_to_latest())
+            .without_kernel_trace()
+            .build();
+        let c = read_clock(&sim);
+        ClockMachine { root: sim.create_snapshot(), epoch0: c.epoch, reduced }
+    }
+}
+
+fn sim_from(snap: &Snap) -> Sim {
+    LedgerSimulatorBuilder::new().without_kernel_trace().build_from_snapshot(snap.clone())
+}
+
+/// instants (seconds) around the recorded clock, plus extremes
+fn query_instants(c: &Clock) -> Vec<i64> {
+    let cs = c.milli.div_euclid(1000);
+    let ms = c.minute as i64 * 60;
+    let mut v = vec![cs - 1, cs, cs + 1, ms - 60, ms - 1, ms, ms + 1, ms + 59, ms + 60, 0, 1, 59, 60, -1, -60, -61, i64::MAX, i64::MIN];
+    v.sort();
+    v.dedup();
+    v
+}
+
+const OPERATORS: [TimeComparisonOperator; 5] =
+    [TimeComparisonOperator::Eq, TimeComparisonOperator::Lt, TimeComparisonOperator::Lte, TimeComparisonOperator::Gt, TimeComparisonOperator::Gte];
+
+fn cmp_ref(a: i128, b: i128, op: TimeComparisonOperator) -> bool {
+    match op {
+        TimeComparisonOperator::Eq => a == b,
+        TimeComparisonOperator::Lt => a < b,
+        TimeComparisonOperator::Lte => a <= b,
+        TimeComparisonOperator::Gt => a > b,
+        TimeComparisonOperator::Gte => a >= b,
+    }
+}
+
+impl Machine for ClockMachine {
+    type Op = Op;
+    type St = St;
+
+    fn init(&self) -> St {
+        let sim = sim_from(&self.root);
+        let clock = read_clock(&sim);
+        St { sim, clock }
+    }
+
+    fn fork(&self, st: &St) -> Option<St> {
+        Some(St { sim: sim_from(&st.sim.create_snapshot()), clock: st.clock.clone() })
+    }
+
+    fn ops(&self, st: &St, _depth: usize) -> Vec<Op> {
+        let c = &st.clock;
+        let mut rounds: Vec<(u64, &str)> = vec![(c.round.saturating_sub(1), "r-1"), (c.round, "r"), (c.round + 1, "r+1"), (c.round + 2, "r+2"), (u64::MAX, "rMAX")];
+        let mut stamps: Vec<(i64, &str)> =
+            vec![(c.milli - 1, "t-1"), (c.milli, "t"), (c.milli + 1, "t+1"), (c.milli + 59_999, "t+59999"), (c.milli + 60_000, "t+60000"), (i64::MAX, "tMAX")];
+        // absolute duplicates (round 0: r-1 == r) are enumerated once
+        rounds.dedup_by_key(|x| x.0);
+        stamps.dedup_by_key(|x| x.0);
+        let mut ops = vec![Op::Query];
+        for (round, rt) in &rounds {
+            for (ts, tt) in &stamps {
+                // the consistent gap list has (round − current − 1) entries; impossible to build for u64::MAX,
+                // where "consistent" degenerates to the empty list
+                let progress = round.checked_sub(c.round).unwrap_or(0);
+                let consistent = if progress >= 1 && progress <= 8 { (progress - 1) as usize } else { 0 };
+                for (gaps, gt) in [(consistent, "gaps-ok"), (consistent + 1, "gaps-bad")] {
+                    for leader in [0u8, 1, INVALID_LEADER] {
+                        if self.reduced && (leader != 0 || gt != "gaps-ok") {
+                            continue;
+                        }
+                        ops.push(Op::NextRound { round: *round, ts: *ts, gaps, leader, tag: format!("{rt},{tt},{gt},leader{leader}") });
+                    }
+                }
+            }
+        }
+        ops
+    }
+
+    fn step(&self, st: &mut St, op: &Op) -> Result<String, (String, String)> {
+        let pre = st.clock.clone();
+        // state invariant (also checked on the root through the first transition): minute clock = rounded timestamp
+        let class = match op {
+            Op::NextRound { round, ts, gaps, leader, tag } => {
+                let manifest = ManifestBuilder::new_system_v1()
+                    .call_method(
+                        CONSENSUS_MANAGER,
+                        CONSENSUS_MANAGER_NEXT_ROUND_IDENT,
+                        ConsensusManagerNextRoundInput {
+                            round: Round::of(*round),
+                            proposer_timestamp_ms: *ts,
+                            leader_proposal_history: LeaderProposalHistory { gap_round_leaders: vec![0; *gaps], current_leader: *leader, is_fallback: false },
+                        },
+                    )
+                    .build();
+                let r = mc_core::catch(|| st.sim.execute_system_transaction(manifest, btreeset![system_execution(SystemExecution::Validator)]));
+                let post = read_clock(&st.sim);
+                let receipt = match r {
+                    Ok(r) => r,
+                    Err(p) => {
+                        // the statement lists invariants only; a crash is reported as a candidate, not decided here
+                        transition_invariants(&pre, &post, tag)?;
+                        st.clock = post;
+                        return Ok(format!("next_round:PANIC:{}", mc_core::truncate(&p, 60)));
+                    }
+                };
+                transition_invariants(&pre, &post, tag)?;
+                let ok = is_success(&receipt);
+                if ok {
+                    let what = |s: String| format!("next_round({tag}) round {round} ts {ts} from {pre:?} to {post:?}: {s}");
+                    if post.epoch == pre.epoch {
+                        if post.round <= pre.round {
+                            return Err(("round-not-advanced".into(), what("a successful round change did not increase the round within the epoch".into())));
+                        }
+                        if post.round != *round {
+                            return Err(("round-not-recorded".into(), what(format!("recorded round {} is not the reported round", post.round))));
+                        }
+                    }
+                    if post.milli != *ts {
+                        return Err(("timestamp-not-recorded".into(), what(format!("recorded proposer timestamp {} is not the reported one", post.milli))));
+                    }
+                    let ev = receipt.expect_commit_success().next_epoch().map(|e| e.epoch.number());
+                    if ev.is_some() != (post.epoch != pre.epoch) || ev.map_or(false, |e| e != post.epoch) {
+                        return Err(("epoch-event-vs-state".into(), what(format!("epoch change event {ev:?} disagrees with the stored epoch"))));
+                    }
+                } else if post != pre {
+                    // C02 territory (a failed transaction changes nothing but fees); monotonicity was checked above
+                    return Ok(format!("next_round:failed-but-clock-moved:{}", receipt_class(&receipt)));
+                }
+                let kind = if !ok {
+                    format!("fail:{}", variant_path(failure_text(&receipt).trim_start_matches("ApplicationError(ConsensusManagerError("), 1))
+                } else if post.epoch != pre.epoch {
+                    "ok:epoch-change".to_string()
+                } else if post.minute != pre.minute {
+                    "ok:minute-tick".to_string()
+                } else {
+                    "ok".to_string()
+                };
+                st.clock = post;
+                format!("next_round:{kind}")
+            }
+            Op::Query => {
+                let instants = query_instants(&pre);
+                let mut b = ManifestBuilder::new().lock_fee_from_faucet();
+                let mut expect: Vec<(String, Option<bool>)> = vec![];
+                let clock_s = pre.milli.div_euclid(1000) as i128;
+                let clock_min = pre.minute as i128;
+                for precision in [TimePrecisionV2::Minute, TimePrecisionV2::Second] {
+                    for &i in &instants {
+                        for op in OPERATORS {
+                            b = b.call_method(
+                                CONSENSUS_MANAGER,
+                                CONSENSUS_MANAGER_COMPARE_CURRENT_TIME_IDENT,
+                                ConsensusManagerCompareCurrentTimeInputV2 { instant: Instant::new(i), precision, operator: op },
+                            );
+                            let e = match precision {
+                                TimePrecisionV2::Second => Some(cmp_ref(clock_s, i as i128, op)),
+                                TimePrecisionV2::Minute => {
+                                    // instants before 1970: the statement does not say whether minutes round down or
+                                    // toward zero; demand an answer only where both readings agree
+                                    let floor = cmp_ref(clock_min, (i as i128).div_euclid(60), op);
+                                    let trunc = cmp_ref(clock_min, (i as i128) / 60, op);
+                                    if floor == trunc {
+                                        Some(floor)
+                                    } else {
+                                        None
+                                    }
+                                }
+                            };
+                            expect.push((format!("compare_current_time(instant {i}s, {precision:?}, {op:?})"), e));
+                        }
+                    }
+                }
+                let n_cmp = expect.len();
+                for precision in [TimePrecisionV2::Minute, TimePrecisionV2::Second] {
+                    b = b.call_method(CONSENSUS_MANAGER, CONSENSUS_MANAGER_GET_CURRENT_TIME_IDENT, ConsensusManagerGetCurrentTimeInputV2 { precision });
+                }
+                let r = mc_core::catch(|| st.sim.execute_manifest(b.build(), vec![]));
+                let post = read_clock(&st.sim);
+                transition_invariants(&pre, &post, "query")?;
+                let receipt = match r {
+                    Ok(r) => r,
+                    Err(p) => return Ok(format!("query:PANIC:{}", mc_core::truncate(&p, 60))),
+                };
+                if !is_success(&receipt) {
+                    mc_core::machinery_error(&format!("query transaction did not succeed: {}", failure_text(&receipt)));
+                }
+                let commit = receipt.expect_commit_success();
+                let mut ambiguous = 0;
+                for (k, (what, e)) in expect.iter().enumerate() {
+                    let got: bool = commit.output(k + 1);
+                    match e {
+                        Some(e) if *e != got => {
+                            return Err((
+                                "time-comparison-disagrees-with-clock".into(),
+                                format!("{what} answered {got}, but the recorded clock is {} ms / minute {} ⇒ {e}", pre.milli, pre.minute),
+                            ))
+                        }
+                        Some(_) => {}
+                        None => ambiguous += 1,
+                    }
+                }
+                let t_min: Instant = commit.output(n_cmp + 1);
+                let t_sec: Instant = commit.output(n_cmp + 2);
+                if t_min.seconds_since_unix_epoch as i128 != clock_min * 60 {
+                    return Err(("current-time-disagrees-with-clock".into(), format!("get_current_time(Minute) = {}s, recorded minute clock {}", t_min.seconds_since_unix_epoch, pre.minute)));
+                }
+                if t_sec.seconds_since_unix_epoch as i128 != clock_s {
+                    return Err(("current-time-disagrees-with-clock".into(), format!("get_current_time(Second) = {}s, recorded timestamp {} ms", t_sec.seconds_since_unix_epoch, pre.milli)));
+                }
+                if post != pre {
+                    st.clock = post;
+                    return Ok("query:clock-moved".into());
+                }
+                if ambiguous > 0 {
+                    "query:agrees(pre-1970-minute-rounding-not-judged)".to_string()
+                } else {
+                    "query:agrees".to_string()
+                }
+            }
+        };
+        Ok(class)
+    }
+
+    /// Everything the clock logic reads: epoch (relative to the root), round, both clocks, epoch start times.
+    /// Dropped: current leader and proposal statistics (they feed emissions, not the clock), fee balances.
+    fn fingerprint(&self, st: &St) -> Vec<u8> {
+        let c = &st.clock;
+        format!("{};{};{};{};{};{}", c.epoch - self.epoch0, c.round, c.milli, c.minute, c.effective_start, c.actual_start).into_bytes()
+    }
+}
+
+/// Invariants demanded on *every* transition, whatever the transaction did.
+fn transition_invariants(pre: &Clock, post: &Clock, tag: &str) -> Result<(), (String, String)> {
+    let what = |s: &str| format!("{tag}: {s}: {pre:?} -> {post:?}");
+    if post.milli < pre.milli {
+        return Err(("timestamp-decreased".into(), what("the proposer timestamp went backwards")));
+    }
+    if post.minute < pre.minute {
+        return Err(("minute-clock-decreased".into(), what("the minute clock went backwards")));
+    }
+    if post.milli >= 0 && post.minute as i64 != post.milli / MILLIS_IN_MINUTE {
+        return Err(("minute-clock-not-rounded-timestamp".into(), what("the minute clock is not the proposer timestamp rounded down to minutes")));
+    }
+    if post.epoch == pre.epoch {
+        if post.round < pre.round {
+            return Err(("round-decreased".into(), what("the round went backwards within an epoch")));
+        }
+    } else {
+        if post.epoch != pre.epoch + 1 {
+            return Err(("epoch-jump".into(), what("the epoch did not advance by exactly one")));
+        }
+        if post.round != 0 {
+            return Err(("round-not-reset".into(), what("the round was not reset by the epoch change")));
+        }
+    }
+    Ok(())
+}
+
+pub fn run(ctx: Ctx) -> ! {
+    if ctx.replay.is_some() {
+        let case = ctx.read_replay_case().unwrap();
+        println!("C44 replay: re-run the recorded history by hand; case = {case}");
+        ctx.finish(Level::ModelChecking, "replay", 0, false, Map::new(), &[]);
+    }
+    let configs = [
+        ("rounds-3-per-epoch", EpochChangeCondition { min_round_count: 3, max_round_count: 3, target_duration_millis: 0 }),
+        ("duration-60s-per-epoch", EpochChangeCondition { min_round_count: 1, max_round_count: 1000, target_duration_millis: 60_000 }),
+    ];
+    let (full_depth, reduced_depth) = ctx.pick((3usize, 4usize), (5, 6));
+    let mut total = BfsStats::default();
+    let mut per_run = vec![];
+    let budget = ctx.pick(50.0, 1100.0);
+    for (name, cond) in configs {
+        for (reduced, depth) in [(false, full_depth), (true, reduced_depth)] {
+            let m = ClockMachine::new(cond.clone(), reduced);
+            {
+                // root state sanity: the invariant relating both clocks holds at genesis
+                let st = m.init();
+                if let Err((k, w)) = transition_invariants(&st.clock, &st.clock, "root") {
+                    ctx.violation(k, w, json!({"base": name, "history": []}));
+                }
+            }
+            let remaining = (budget - ctx.elapsed_s()).max(1.0);
+            let tag = format!("{name}{}", if reduced { "/reduced-alphabet(leader 0, consistent gaps)" } else { "/full-alphabet" });
+            let s = bfs(&ctx, &m, &tag, depth, 5_000_000, remaining);
+            per_run.push(json!({"config": tag, "depth": depth, "states": s.states, "transitions": s.transitions, "depth_completed": s.depth_completed, "capped": s.capped}));
+            total.add(&s);
+        }
+    }
+    let mut cov = total.coverage();
+    cov.insert("runs".into(), json!(per_run));
+    cov.insert(
+        "alphabet".into(),
+        json!("Query | next_round(round ∈ {r−1,r,r+1,r+2,u64::MAX} × ts ∈ {t−1,t,t+1,t+59999,t+60000,i64::MAX} ms × gaps {consistent,inconsistent} × leader {0,1,invalid})"),
+    );
+    let exhaustive = !total.capped;
+    ctx.finish(
+        Level::ModelChecking,
+        "breadth-first over all sequences of the alphabet up to the depth, from two genesis configurations (round-count- and duration-triggered epoch change, 2 validators); every transaction runs on the real engine as a system transaction with the validator proof; the clock state is read back from the stored substates and compared with the reference after every transaction; a state is non-trivial when its (epoch, round, timestamp, minute, epoch starts) tuple is new",
+        total.states,
+        exhaustive,
+        cov,
+        &[
+            "states that differ only in leader / proposal statistics are merged (the clock logic does not read them)",
+            "minute-precision comparisons with instants before 1970 are judged only where rounding down and rounding toward zero agree",
+            "a failed round change that moves the clock forward would be reported as a class, not a violation (C02 decides that)",
+        ],
+    )
 }
